@@ -199,8 +199,37 @@ fn panic_child() -> i32 {
     }
 }
 
+/// A reload pass in which the reloader itself loads `n` assets nobody has loaded before (each one
+/// is announced to the reloader through the cache-message channel while the reloader is busy).
+fn flood_child(n: usize) -> i32 {
+    trace_enable(false);
+    let mem = Mem::new(true);
+    mem.write("big", "n", b"val 0");
+    for i in 0..n {
+        mem.write(&format!("f{i}"), "x", b"1");
+    }
+    let cache = AssetCache::with_source(mem.clone());
+    cache.load::<TNode>("big").unwrap();
+    let mut script = String::from("val 0");
+    for i in 0..n {
+        script.push_str(&format!("\nload I f{i}"));
+    }
+    mem.write("big", "n", script.as_bytes());
+    mem.send(vec![OwnedDirEntry::File("big".into(), "n".into())]);
+    std::thread::sleep(Duration::from_millis(50));
+    cache.hot_reload();
+    let v = cache.load::<TNode>("big").unwrap().read().0.n;
+    if v == n as i64 {
+        0
+    } else {
+        eprintln!("after the pass: big = {v}, expected {n}");
+        7
+    }
+}
+
 pub fn child(a: &Args) -> i32 {
     match a.get("kind") {
+        Some("flood") => flood_child(a.get("n").and_then(|x| x.parse().ok()).unwrap_or(100)),
         Some("shape") => shape_child(a.get("spec").unwrap_or("1;")),
         Some("panic") => panic_child(),
         _ => 2,
@@ -282,7 +311,7 @@ fn all_shapes(max_nodes: usize, rng: &mut Rng, extra_random: usize) -> Vec<Strin
 
 pub fn run(a: &Args) {
     let mut rng = Rng::new(a.seed);
-    let parts = a.get("parts").unwrap_or("shapes,panic,conc").to_string();
+    let parts = a.get("parts").unwrap_or("shapes,panic,flood,conc").to_string();
     let mut evals = 0u64;
     let mut samples: Vec<String> = vec![];
     let mut distinct = std::collections::HashSet::new();
@@ -362,6 +391,23 @@ pub fn run(a: &Args) {
                     jstr(&e)
                 ),
             );
+        }
+    }
+
+    // (D) a pass that discovers many new assets
+    if parts.contains("flood") && a.replay.is_none() {
+        let sizes: &[usize] = if a.thorough() { &[10, 100, 129, 1000, 5000] } else { &[100, 1000] };
+        for n in sizes {
+            evals += 1;
+            distinct.insert(format!("flood {n}"));
+            let case = format!("{{\"kind\": \"one reload pass loads {n} assets for the first time\", \"new_assets\": {n}");
+            if samples.len() < 6 {
+                samples.push(format!("{case}}}"));
+            }
+            if let Err(e) = run_child(&["--kind", "flood", "--n", &n.to_string()], Duration::from_secs(30)) {
+                violation(&a.out, "hot_reload-stall", format!("{case}, \"observed\": {}}}", jstr(&e)));
+                break;
+            }
         }
     }
 
